@@ -124,6 +124,15 @@ def run_pool(modname, fname, args, env=None, nproc=None, progress=None, task_tim
     workers = {}  # conn -> [process, current idx or None, start time]
     next_idx = 0
     done = 0
+    # VERIF_FAIL_FAST=1 (only used when re-running seeded changes): stop handing out work once a work unit has
+    # reported a violation that is not a known finding; the remaining units are returned as ("skipped", ...)
+    fail_fast = os.environ.get("VERIF_FAIL_FAST") == "1"
+    known = [k for k in load_known_findings() if k.get("status") == "known"] if fail_fast else []
+    stop = [False]
+
+    def is_new(f):
+        sig = f.get("signature", {})
+        return not any(_match(k["match"], sig) for k in known)
 
     def start_worker():
         parent, child = ctx.Pipe()
@@ -134,7 +143,12 @@ def run_pool(modname, fname, args, env=None, nproc=None, progress=None, task_tim
         return parent
 
     def give(conn):
-        nonlocal next_idx
+        nonlocal next_idx, done
+        if stop[0]:
+            while next_idx < n:
+                results[next_idx] = ("skipped", "fail-fast: a violation was already found")
+                next_idx += 1
+                done += 1
         if next_idx < n:
             workers[conn][1] = next_idx
             workers[conn][2] = time.time()
@@ -171,6 +185,9 @@ def run_pool(modname, fname, args, env=None, nproc=None, progress=None, task_tim
                     continue
                 results[idx] = res
                 done += 1
+                if fail_fast and res[0] == "ok" and isinstance(res[1], dict) and any(
+                        is_new(f) for f in res[1].get("findings", [])):
+                    stop[0] = True
                 if progress and done % progress == 0:
                     print(f"  .. {done}/{n} work units", flush=True)
                 give(conn)
